@@ -120,6 +120,7 @@ func Discharge(obls []*Obligation, opts SolveOpts, workers int, wantModels bool)
 	type job struct {
 		o      *Obligation
 		script string
+		small  string
 		mq     *modelQuery
 	}
 	jobs := make([]job, 0, len(obls))
@@ -148,7 +149,32 @@ func Discharge(obls []*Obligation, opts SolveOpts, workers int, wantModels bool)
 			o.x.modelTerms(o.Inputs, o.x.initMemFor(o), mq, "")
 			gv = mq.terms
 		}
-		jobs = append(jobs, job{o, tb.Script(asserts, gv, false), mq})
+		small := ""
+		if wantModels {
+			var extra []*Term
+			var walk func(v SVal)
+			walk = func(v SVal) {
+				switch t := v.(type) {
+				case *SliceV:
+					extra = append(extra, tb.BVCmp("bvsle", t.Len, tb.BVi(64, 280)), tb.BVCmp("bvsle", t.Cap, tb.BVBin("bvadd", t.Len, tb.BVi(64, 16))))
+				case *StructV:
+					for _, f := range t.Fields {
+						walk(f)
+					}
+				case *PtrV:
+					if os, ok := o.x.entryMem[t.Obj]; ok && !t.Obj.Array && os.Val != nil {
+						walk(getPath(os.Val, t.Path))
+					}
+				}
+			}
+			for _, in := range o.Inputs {
+				walk(in.Val)
+			}
+			if len(extra) > 0 {
+				small = tb.Script(append(append([]*Term(nil), asserts...), extra...), gv, false)
+			}
+		}
+		jobs = append(jobs, job{o, tb.Script(asserts, gv, false), small, mq})
 	}
 	_ = ch
 	jch := make(chan job)
@@ -158,6 +184,14 @@ func Discharge(obls []*Obligation, opts SolveOpts, workers int, wantModels bool)
 			defer wg.Done()
 			for j := range jch {
 				r := Solve(j.script, opts)
+				if r.Status == "sat" && j.small != "" {
+					// prefer a counterexample with small slices (replayable); keep the first answer otherwise
+					if r2 := Solve(j.small, opts); r2.Status == "sat" {
+						r2.Tried = append(r.Tried, r2.Tried...)
+						r2.Seconds += r.Seconds
+						r = r2
+					}
+				}
 				j.o.Result = r
 				if r.Status == "sat" && j.mq != nil && len(r.Values) == len(j.mq.terms) {
 					m := Model{}
